@@ -48,6 +48,23 @@ theorem available_eq (c : Counter) (w : WakerId) :
   simp only [Counter.available, ucAvailable_fst, ucAvailable_snd, LocalWaker.register]
   by_cases h : c.count < c.capacity <;> simp [h]
 
+/-- a guard drop, kernel-free: `dec`; an inline-polling woken task sees the decremented count and is
+answered "available" (so it does not re-register) -/
+theorem release_eq (c : Counter) (h : 0 < c.count) :
+    c.release = (c.dec.1, c.dec.2.bind (fun w => if inlineWaker w then some (c.count - 1, true) else none)) := by
+  simp only [Counter.release]
+  rw [dec_eq]
+  by_cases hc : c.count = c.capacity
+  · simp only [hc, if_true]
+    cases hw : c.task.waker with
+    | none => simp
+    | some w =>
+      have hlt : c.capacity - 1 < c.capacity := by omega
+      by_cases hi : inlineWaker w = true
+      · simp [hi, available_eq, hlt]
+      · simp [hi]
+  · simp [hc]
+
 /-! ## refinement invariant -/
 
 /-- the model state agrees with the kernel-free reference -/
@@ -72,7 +89,8 @@ theorem rel_step {cap : Nat} {s s' : Sys} {sp : Spec} {op : Op} {o : Obs}
     · rename_i hg
       simp only [Option.some.injEq, Prod.mk.injEq] at hs; obtain ⟨hs, _⟩ := hs; subst hs
       have hl : (s.guards.erase g).length = s.guards.length - 1 := List.length_erase_of_mem hg
-      simp only [Rel, Spec.step, dec_eq, h1, h2, h3]
+      have hpos : 0 < s.ctr.count := by rw [h2]; exact List.length_pos_of_mem hg
+      simp only [Rel, Spec.step, release_eq _ hpos, dec_eq, h1, h2, h3]
       by_cases hc : s.guards.length = cap
       · simp [hc, hl, h1, h2]
       · simp [hc, hl, h1, h2, h4]
@@ -129,6 +147,81 @@ theorem rel_run {cap : Nat} (ops : List Op) : ∀ {s s' : Sys} {sp : Spec} {os :
 theorem rel_reach {cap : Nat} {ops : List Op} {s : Sys} {os : List Obs}
     (hr : run (init cap) ops = some (s, os)) : Rel cap s (specOf cap ops) :=
   rel_run ops (rel_init cap) hr
+
+/-- nobody is left parked while the counter is below its capacity -/
+def ParkedOk (s : Sys) : Prop := ∀ w, s.ctr.task.waker = some w → s.ctr.capacity ≤ s.ctr.count
+
+theorem parkedOk_step {cap : Nat} {s s' : Sys} {sp : Spec} {op : Op} {o : Obs}
+    (hrel : Rel cap s sp) (h : ParkedOk s) (hs : step s op = some (s', o)) : ParkedOk s' := by
+  obtain ⟨h1, h2, h3, h4⟩ := hrel
+  cases op with
+  | acquire hd =>
+    simp only [step] at hs; split at hs
+    · simp only [Option.some.injEq, Prod.mk.injEq] at hs; obtain ⟨hs, _⟩ := hs; subst hs
+      intro w hw; have := h w (by simpa [inc_eq] using hw); simp [inc_eq]; omega
+    · simp at hs
+  | drop g =>
+    simp only [step] at hs; split at hs
+    · rename_i hg
+      simp only [Option.some.injEq, Prod.mk.injEq] at hs; obtain ⟨hs, _⟩ := hs; subst hs
+      have hpos : 0 < s.ctr.count := by rw [h2]; exact List.length_pos_of_mem hg
+      intro w hw
+      simp only [release_eq _ hpos, dec_eq] at hw ⊢
+      by_cases hc : s.ctr.count = s.ctr.capacity
+      · simp [hc] at hw
+      · simp only [hc, if_false] at hw ⊢
+        have := h w hw
+        simp; omega
+    · simp at hs
+  | available hd w' =>
+    simp only [step] at hs; split at hs
+    · simp only [Option.some.injEq, Prod.mk.injEq] at hs; obtain ⟨hs, _⟩ := hs; subst hs
+      intro w hw
+      simp only [available_eq] at hw ⊢
+      by_cases hc : s.ctr.count < s.ctr.capacity
+      · simp only [hc, if_true] at hw ⊢; exact h w hw
+      · simp only [hc, if_false]; omega
+    · simp at hs
+  | clone hd =>
+    simp only [step] at hs; split at hs
+    · simp only [Option.some.injEq, Prod.mk.injEq] at hs; obtain ⟨hs, _⟩ := hs; subst hs; exact h
+    · simp at hs
+  | total hd =>
+    simp only [step] at hs; split at hs
+    · simp only [Option.some.injEq, Prod.mk.injEq] at hs; obtain ⟨hs, _⟩ := hs; subst hs; exact h
+    · simp at hs
+  | dropHandle hd =>
+    simp only [step] at hs; split at hs
+    · simp only [Option.some.injEq, Prod.mk.injEq] at hs; obtain ⟨hs, _⟩ := hs; subst hs; exact h
+    · simp at hs
+  | debug hd =>
+    simp only [step] at hs; split at hs
+    · simp only [Option.some.injEq, Prod.mk.injEq] at hs; obtain ⟨hs, _⟩ := hs; subst hs; exact h
+    · simp at hs
+  | debugGuard g =>
+    simp only [step] at hs; split at hs
+    · simp only [Option.some.injEq, Prod.mk.injEq] at hs; obtain ⟨hs, _⟩ := hs; subst hs; exact h
+    · simp at hs
+
+theorem parkedOk_run {cap : Nat} (ops : List Op) : ∀ {s s' : Sys} {sp : Spec} {os : List Obs},
+    Rel cap s sp → ParkedOk s → run s ops = some (s', os) → ParkedOk s' := by
+  induction ops with
+  | nil => intro s s' sp os _ h hr; simp [run] at hr; obtain ⟨hr, _⟩ := hr; subst hr; exact h
+  | cons op ops ih =>
+    intro s s' sp os hrel h hr
+    simp only [run] at hr
+    split at hr
+    · simp at hr
+    · rename_i s1 o hs1
+      split at hr
+      · simp at hr
+      · rename_i s2 os2 hr2
+        simp only [Option.some.injEq, Prod.mk.injEq] at hr; obtain ⟨hr, _⟩ := hr; subst hr
+        exact ih (rel_step hrel hs1) (parkedOk_step hrel h hs1) hr2
+
+theorem parkedOk_reach {cap : Nat} {ops : List Op} {s : Sys} {os : List Obs}
+    (hr : run (init cap) ops = some (s, os)) : ParkedOk s :=
+  parkedOk_run ops (rel_init cap) (by intro w hw; simp [init] at hw) hr
 
 /-- `run` splits over `++` -/
 theorem run_append (ops1 ops2 : List Op) : ∀ (s : Sys),
